@@ -121,3 +121,25 @@ Theorem C03_call_runs_as_its_source_says :
                    (m_stack s', fr s') = (m_stack s, fr s) /\ rev (s_trace ss') = rev (s_trace ss) ++ evs.
 Proof. exact call_simulation. Qed.
 Print Assumptions C03_call_runs_as_its_source_says.
+
+(* The value of a call, where a statement takes it directly -- `assign y [f a b]`, `hue [f a b]`, `print [f a b]`,
+   `println [f a b]` (and `return [f a b]`, which the general theorem covers: `Lang/Simulation3.v`, `B_callret`): the routine's
+   body ends in a `return` on every path (`must_return`; a routine that runs into its END leaves RESULT as it was, and the
+   documentation does not say what such a call is worth).  Whenever the reference semantics runs the statement -- arguments in
+   the caller's scope, the body, the value of the `return` delivered to the point of call and assigned / stored / printed there
+   -- the compiled call, the routine's code and the instruction that takes the value from RESULT run on the machine model to
+   the instruction behind the statement, with the same events, stack and frames, and the states correspond again: the variable,
+   register or output holds the value the `return` gave. *)
+From Bardolph Require Import Lang.CallValue.
+Theorem C03_value_of_a_call_is_what_return_gave :
+  forall rt mt, bodies_ok rt mt ->
+  forall u f args d, builtin_params f builtin_table = None -> find_rdef rt f = Some d ->
+  plain_args mt args (rd_params d) = true -> must_return (rd_body d) = true -> use_ok u = true ->
+  forall after im ss s sig ss' fuel, routines_loaded rt mt im -> sim ss s ->
+  code_at im (m_pc s) (c_stmt rt mt false after (use_stmt u (RCall f args))) ->
+  Sem.exec rt mt fuel false ss (use_stmt u (RCall f args)) = ROk sig ss' ->
+  sig = SigNormal /\
+  exists n s' evs, esteps n im s = Some (s', evs) /\ sim ss' s' /\ m_pc s' = m_pc s + zlength (c_stmt rt mt false after (use_stmt u (RCall f args))) /\
+                   (m_stack s', fr s') = (m_stack s, fr s) /\ rev (s_trace ss') = rev (s_trace ss) ++ evs.
+Proof. exact call_value_simulation. Qed.
+Print Assumptions C03_value_of_a_call_is_what_return_gave.
